@@ -77,7 +77,9 @@ class Lock:
 # builds
 
 # Run/ entry points shared by several properties
-RUN_OF = {"C04": "RunCal", "C05": "RunCal", "C06": "RunCal"}
+RUN_OF = {"C04": "RunCal", "C05": "RunCal", "C06": "RunCal", "C01": "RunDual", "C02": "RunDual", "C03": "RunDual",
+          "C17": "RunDual", "C18": "RunDual", "C19": "RunDual", "C09": "RunFX", "C10": "RunFX", "C11": "RunCurve",
+          "C12": "RunCurve", "C13": "RunLinalg", "C14": "RunSpline", "C15": "RunSpline"}
 EXTRA_RUN_TARGETS = []
 
 
